@@ -60,6 +60,15 @@ class PurgeAppTask(BaseEvolutionTask):
             self.evolution_required = True
             self.sql = app_mutator.to_sql()
 
+            # The app is gone. Once its models have been removed, drop its
+            # (now empty) entry from the project signature as well, or the
+            # signature would keep reporting the app as deleted.
+            project_sig = evolver.project_sig
+            app_sig = project_sig.get_app_sig(self.app_label)
+
+            if app_sig is not None and app_sig.is_empty():
+                project_sig.remove_app_sig(app_sig.app_id)
+
         self.can_simulate = True
         self.new_evolutions = []
 
